@@ -289,13 +289,22 @@ def freezeScan (item : Nat × Nat) (term : Term) : Term × Int × Bool × Nat :=
   let r := term.reverse.zipIdx.foldl (freezeStep item) (([] : Term), (0 : Int), false, item.2, (0 : Int))
   (r.1, r.2.1, r.2.2.1, r.2.2.2.1)
 
+/-- one term of one pass of the outer loop of `freeze_orbitals`; the flag records that the
+accumulation into `tmp_operator` never dropped a non-zero sum below the tolerance -/
+def freezeStepX (tol : Rat) (item : Nat × Nat) (acc : Op × Bool) (e : Term × GQ) : Op × Bool :=
+  let sc := freezeScan item e.1
+  let c0 : GQ := if sc.2.2.1 then 0 else e.2
+  let c1 : GQ := if sc.2.1 % 2 ≠ 0 then c0 * (-1) else c0
+  if c1 ≠ 0 ∧ sc.2.2.2 = item.2 then
+    (Model.iadd tol acc.1 (mk .fermion sc.1 c1), acc.2 && exactAddB tol acc.1 (mk .fermion sc.1 c1))
+  else acc
+
+/-- one pass of the outer loop of `freeze_orbitals`, with the exact-regime flag -/
+def freezeOneX (tol : Rat) (item : Nat × Nat) (A : Op) : Op × Bool :=
+  A.foldl (freezeStepX tol item) ([], true)
+
 /-- one pass of the outer loop of `freeze_orbitals` -/
-def freezeOne (tol : Rat) (item : Nat × Nat) (A : Op) : Op :=
-  A.foldl (fun tmp (term, coef) =>
-    let (newTerm, nSwaps, dead, occ) := freezeScan item term
-    let c0 : GQ := if dead then 0 else coef
-    let c1 : GQ := if nSwaps % 2 ≠ 0 then c0 * (-1) else c0
-    if c1 ≠ 0 ∧ occ = item.2 then Model.iadd tol tmp (mk .fermion newTerm c1) else tmp) []
+def freezeOne (tol : Rat) (item : Nat × Nat) (A : Op) : Op := (freezeOneX tol item A).1
 
 /-- `prune_unused_indices` -/
 def pruneUnusedIndices (A : Op) : Op :=
@@ -303,14 +312,22 @@ def pruneUnusedIndices (A : Op) : Op :=
   let sorted := indices.foldr C16.insertSorted []
   A.foldl (fun acc (t, c) => Dict.set acc (t.map fun f => (indexOf sorted f.1, f.2)) c) []
 
-/-- `freeze_orbitals` -/
-def freezeOrbitals (tol : Rat) (A : Op) (occupied unoccupied : List Nat) (prune : Bool) : Op :=
+/-- the outer loop of `freeze_orbitals` over the frozen `(index, occupancy)` pairs -/
+def freezeAll (tol : Rat) (frozen : List (Nat × Nat)) (acc : Op × Bool) : Op × Bool :=
+  frozen.foldl (fun (acc : Op × Bool) item =>
+    ((freezeOneX tol item acc.1).1, acc.2 && (freezeOneX tol item acc.1).2)) acc
+
+/-- `freeze_orbitals`, with the exact-regime flag of the run -/
+def freezeOrbitalsX (tol : Rat) (A : Op) (occupied unoccupied : List Nat) (prune : Bool) : Op × Bool :=
   let frozen := occupied.map (fun i => (i, 1)) ++ unoccupied.map (fun i => (i, 0))
-  let B := frozen.foldl (fun acc item => freezeOne tol item acc) A
-  let C := B.map fun (t, c) =>
-    let flips := (occupied.map fun idx => (t.filter fun f => f.1 > idx).length).foldl (· + ·) 0
-    (t, if flips % 2 = 0 then c else c * (-1))
-  if prune then pruneUnusedIndices C else C
+  let B := freezeAll tol frozen (A, true)
+  let C := B.1.map fun (e : Term × GQ) =>
+    (e.1, if ((occupied.map fun idx => (e.1.filter fun f => f.1 > idx).length).foldl (· + ·) 0) % 2 = 0
+      then e.2 else e.2 * (-1))
+  (if prune then pruneUnusedIndices C else C, B.2)
+
+def freezeOrbitals (tol : Rat) (A : Op) (occupied unoccupied : List Nat) (prune : Bool) : Op :=
+  (freezeOrbitalsX tol A occupied unoccupied prune).1
 
 /-! ### remove_symmetry_qubits.py -/
 
